@@ -145,6 +145,31 @@ def advisory_sites(stderr_text):
     return out
 
 
+# worker processes run in their own process groups: make sure none outlives the driver (a driver killed during
+# development used to leave workers spinning for hours)
+_LIVE = set()
+
+
+def _kill_live(signum=None, frame=None):
+    for pid in list(_LIVE):
+        try:
+            os.killpg(pid, signal.SIGKILL)
+        except OSError:
+            pass
+    if signum is not None:
+        os._exit(2)
+
+
+import atexit
+atexit.register(_kill_live)
+try:
+    signal.signal(signal.SIGTERM, _kill_live)
+    signal.signal(signal.SIGINT, _kill_live)
+    signal.signal(signal.SIGHUP, _kill_live)
+except ValueError:  # not in the main thread
+    pass
+
+
 def run_chunk(exe, flavour, seed, first, n, tier, rundir, timeout_case, extra_env):
     """Run cases [first, first+n); restart after a crash; returns dict(events, crashes, hangs, advisory)."""
     res = {"events": [], "crashes": [], "hangs": [], "advisory": {}, "tsan": []}
@@ -162,6 +187,7 @@ def run_chunk(exe, flavour, seed, first, n, tier, rundir, timeout_case, extra_en
         with open(errf, "wb") as ef, open(base + ".stdout", "wb") as of:
             p = subprocess.Popen(cmd, stdout=of, stderr=ef, cwd=work, env=harness_env(flavour, extra_env),
                                  start_new_session=True)
+            _LIVE.add(p.pid)
             try:
                 rc = p.wait(timeout=tmo)
             except subprocess.TimeoutExpired:
@@ -171,6 +197,8 @@ def run_chunk(exe, flavour, seed, first, n, tier, rundir, timeout_case, extra_en
                 except OSError:
                     pass
                 rc = p.wait()
+            finally:
+                _LIVE.discard(p.pid)
         ev = read_events(logf)
         res["events"].extend(ev)
         with open(errf, "r", errors="replace") as f:
